@@ -36,7 +36,8 @@ struct Inner {
     abort: Option<Failure>,
     steps: usize,
     step_limit: usize,
-    os_handles: Vec<std::thread::JoinHandle<()>>,
+    live_os: usize,
+    inline_only: bool,
     lock_ids: HashMap<usize, usize>,
     obs_log: Vec<String>,
     /// std locks announced through hooks: address -> owner
@@ -44,6 +45,27 @@ struct Inner {
 }
 
 pub struct Sched { inner: Mutex<Inner>, cv: Condvar }
+
+// OS threads are reused across executions: a virtual thread is a job handed to an idle pooled thread
+type OsJob = Box<dyn FnOnce() + Send + 'static>;
+static IDLE: Mutex<Vec<std::sync::mpsc::Sender<OsJob>>> = Mutex::new(Vec::new());
+fn os_spawn(job: OsJob) {
+    let idle = IDLE.lock().unwrap_or_else(|e| e.into_inner()).pop();
+    match idle {
+        Some(tx) => { if let Err(e) = tx.send(job) { os_spawn(e.0); } }
+        None => {
+            let (tx, rx) = std::sync::mpsc::channel::<OsJob>();
+            tx.send(job).unwrap();
+            std::thread::Builder::new().stack_size(64 << 20).spawn(move || {
+                while let Ok(j) = rx.recv() {
+                    j();
+                    ME.with(|m| m.set(None));
+                    IDLE.lock().unwrap_or_else(|e| e.into_inner()).push(tx.clone());
+                }
+            }).expect("spawn OS thread");
+        }
+    }
+}
 
 static ACTIVE: Mutex<Option<Arc<Sched>>> = Mutex::new(None);
 thread_local! { static ME: std::cell::Cell<Option<usize>> = const { std::cell::Cell::new(None) }; }
@@ -179,6 +201,9 @@ pub fn mutex_release(addr: usize) {
     wake_all(addr);
 }
 
+/// while set, fork choices are not offered (jobs run inline): used for deterministic read-back phases
+pub fn inline_only(on: bool) { if let Some((s, _)) = sched() { s.lock().inline_only = on; } }
+
 /// free-form note appended to the execution's observation log (deterministic replay check)
 pub fn note(s: String) { if let Some((sc, _)) = sched() { let mut g = sc.lock(); if g.obs_log.len() < 10_000 { g.obs_log.push(s); } } }
 
@@ -201,6 +226,7 @@ pub fn maybe_fork<'a, R: Send + 'a, F: FnOnce(bool) -> R + Send + 'a>(f: F, kind
     let mut g = s.lock();
     if g.abort.is_some() { drop(g); std::panic::resume_unwind(Box::new(Aborted)); }
     let pool = g.threads[me].pool;
+    if g.inline_only { return Err(f); }
     let Some(slot_idx) = free_slot(&g, pool) else { return Err(f) };
     let c = s.choose(&mut g, vec![0, 1], kind);
     if c == 0 { return Err(f); }
@@ -217,9 +243,9 @@ pub fn maybe_fork<'a, R: Send + 'a, F: FnOnce(bool) -> R + Send + 'a>(f: F, kind
     });
     // SAFETY: the handle is joined (explicitly or in Drop) before 'a ends, as rayon's StackJob does
     let job: Box<dyn FnOnce() + Send + 'static> = unsafe { std::mem::transmute(job) };
-    let os = std::thread::Builder::new().stack_size(16 << 20).spawn(move || vthread_main(s2, tid, job)).expect("spawn");
-    g.os_handles.push(os);
+    g.live_os += 1;
     drop(g);
+    os_spawn(Box::new(move || vthread_main(s2, tid, job)));
     // after a fork both threads are runnable: a scheduling point
     point("after-fork");
     Ok(Handle { tid, slot, joined: false, _p: std::marker::PhantomData })
@@ -240,8 +266,10 @@ fn vthread_main(s: Arc<Sched>, tid: usize, job: Box<dyn FnOnce() + Send>) {
     let (p, w) = (g.threads[tid].pool, g.threads[tid].worker);
     g.pools[p].busy[w] = false;
     for t in g.threads.iter_mut() { if t.status == Status::Blocked(JOIN_BASE + tid) { t.status = Status::Runnable; } }
-    if g.abort.is_some() { s.cv.notify_all(); return; }
-    if g.current == tid { let _g = s.yield_blocked(g, tid); }
+    if g.abort.is_some() { g.live_os -= 1; s.cv.notify_all(); return; }
+    if g.current == tid { g = s.yield_blocked(g, tid); }
+    g.live_os -= 1;
+    s.cv.notify_all();
 }
 
 fn panic_msg(e: &Box<dyn Any + Send>) -> String {
@@ -329,7 +357,7 @@ pub fn run_one<O: Send + 'static>(cfg: &Config, prefix: &[u8], body: &(dyn Fn() 
         inner: Mutex::new(Inner {
             current: 0, threads: vec![Th { status: Status::Runnable, pool: 0, worker: 0 }],
             pools: vec![Pool { size: cfg.workers, busy: { let mut b = vec![false; cfg.workers]; b[0] = true; b } }],
-            prefix: prefix.to_vec(), trace: vec![], abort: None, steps: 0, step_limit: cfg.step_limit, os_handles: vec![], lock_ids: HashMap::new(), obs_log: vec![], held: HashMap::new(),
+            prefix: prefix.to_vec(), trace: vec![], abort: None, steps: 0, step_limit: cfg.step_limit, live_os: 1, inline_only: false, lock_ids: HashMap::new(), obs_log: vec![], held: HashMap::new(),
         }),
         cv: Condvar::new(),
     });
@@ -339,14 +367,13 @@ pub fn run_one<O: Send + 'static>(cfg: &Config, prefix: &[u8], body: &(dyn Fn() 
     let s2 = s.clone();
     // SAFETY: the main virtual thread is joined below before `body` goes out of scope
     let body_static: &'static (dyn Fn() -> O + Sync) = unsafe { std::mem::transmute(body) };
-    let main = std::thread::Builder::new().stack_size(64 << 20).spawn(move || {
+    os_spawn(Box::new(move || {
         vthread_main(s2, 0, Box::new(move || { let o = body_static(); *out2.lock().unwrap_or_else(|e| e.into_inner()) = Some(o); }))
-    }).expect("spawn main vthread");
-    let _ = main.join();
-    // wait for all forked OS threads
-    loop {
-        let h = { let mut g = s.lock(); g.os_handles.pop() };
-        match h { Some(h) => { let _ = h.join(); } None => break }
+    }));
+    // wait until every virtual thread of this execution has ended
+    {
+        let mut g = s.lock();
+        while g.live_os > 0 { g = s.cv.wait(g).unwrap_or_else(|e| e.into_inner()); }
     }
     *ACTIVE.lock().unwrap_or_else(|e| e.into_inner()) = None;
     let mut g = s.lock();
